@@ -23,3 +23,34 @@ CHECKS['C05'] = dict(
          'against the original run, and rename-back restoring every byte.',
     note=STUBS + '; identifiers of >= 3 characters only (jedi documents that shorter names are not searched in other modules)',
     technique='small-scope exhaustive enumeration of programs x occurrences, differential oracle = CPython execution + token diff')
+CHECKS['C17'] = dict(
+    text='Bounded-exhaustive exploration: PF programs and frozen corpus files in every layout '
+         '(LF/CRLF/CR, tabs, form feeds, continuation lines, unicode identifiers, no final '
+         'newline) x every identifier position x every query; oracle = the text at the reported '
+         'position, an independent tokenisation for get_names and ast binding contexts for '
+         'is_definition.',
+    note=STUBS, technique='small-scope exhaustive enumeration of (text, layout, position, query); oracle = the text itself + tokenize/ast')
+CHECKS['C06'] = dict(
+    text='Bounded-exhaustive exploration of extract_variable / extract_function / inline: every '
+         'AST expression node (cursor-only and explicit range), every whole-line statement range '
+         'of function bodies in two selection conventions, every character sub-range of small '
+         'programs, every single-assignment variable; oracle = RefactoringError or compile() '
+         '(all selections), CPython execution old vs new (certified-pure selections), and the '
+         'extract_variable -> inline round trip.',
+    note=STUBS + '; purity certified conservatively by an ast visitor', 
+    technique='small-scope exhaustive enumeration of (program, selection, refactoring); oracles compile() and CPython execution')
+CHECKS['C07'] = dict(
+    text='Bounded-exhaustive exploration of the two-step history inspect-then-apply for every '
+         'refactoring request (rename / inline / extract_*) on PF programs in LF, CRLF, CR, '
+         'no-final-newline and unicode layouts with the project on disk: directory snapshot '
+         'before/after, unified-diff parser + own applier (+ GNU patch), exact announced contents '
+         'after apply(), byte-for-byte survival of every line outside the rewritten statement.',
+    note=STUBS + '; diff compared modulo the documented added final newline',
+    technique='small-scope exhaustive enumeration of (program, layout, request) x {inspect, apply}; oracle = file system + own diff applier + GNU patch')
+CHECKS['C18'] = dict(
+    text='Bounded-exhaustive exploration: all nesting shapes over {class, def, async def, decorated '
+         'def, lambda, comprehension} up to depth 3/4, PF programs and valid corpus files; '
+         'get_context at every code token, parent() chain of every definition, full_name of '
+         'module/class-level functions and classes; oracle = AST nesting and __qualname__.',
+    note=STUBS + '; header tokens accept the definition or its enclosing scope',
+    technique='small-scope exhaustive enumeration of nesting shapes x token positions; oracle = ast nesting')
